@@ -74,6 +74,16 @@ CHECKS = {
    "All chains of length <=2 (quick) / <=3 (thorough) over real jwt, basic_auth, generic, oauth2_introspection, anonymous and unauthorized authenticators built by the production mechanism factory, every assignment and source (catalogue, rule-level override, inheritance) of allow_fallback_on_error, 19 Authorization header values, 5 session header values and {ok, 503, transport error} for every in-process remote; subject, error owner and contacted remotes are compared with a reference walk; chains <=2 additionally through the assembled decision service.",
    "Malformed credentials are a don't-care (observed classification recorded); docs decide that an opaque bearer token is 'not its kind' for jwt.",
    "DESIGN.md 4 C04"),
+ "C05": ("exploration", "enum",
+   "bounded exhaustive enumeration of tokens (valid token, every single-position mutation of its compact serialization, structural attack catalogue, claim boundary products) x key sets x assertion configurations (prototype and rule-level overrides) on the real jwt authenticator with a frozen clock, against an independent verifier on stdlib crypto",
+   "For every (key type/algorithm, key set, assertion configuration, cache) scenario one valid token, every position of its serialization replaced by two other base64url characters and deleted, a catalogue of structural attacks (alg none, algorithm confusion incl. HMAC keyed by public material, kid games, foreign keys, header jwk/jku/x5u injection, extra segments, JSON serialization, duplicate claims) and all claim boundary combinations are presented to the real authenticator against an in-process JWKS endpoint; accept/reject and the produced subject must agree with an independent verifier written on encoding/* and crypto/* only.",
+   "Cryptographic strength is out of scope; tokens without exp, keys without alg and base64 aliases are don't-cares; completeness is demanded only for plainly valid tokens.",
+   "DESIGN.md 4 C05"),
+ "C10": ("model_checking", "bfs",
+   "explicit-state breadth-first search over request/advance-clock histories per (mechanism, remaining lifetime, configured TTL, cache semantics) cell on the real mechanisms with a virtual clock, in-process remotes and a recording cache (real in-memory cache and a Redis SET PX reference)",
+   "For nine mechanism drivers (introspection, generic with session lifespan, jwt key cache, jwt finalizer, client credentials as finalizer and as endpoint auth strategy, RFC 7234 HTTP cache, remote authorizer and generic contextualizer overrides) every cell of remaining lifetime x configured TTL (prototype and rule override) x Cache-Control/Expires/Date combination is explored by BFS over histories of request and clock advances (menu derived from the cell) to depth 3 + directed probes (quick) / depth 5 (thorough); every Set must respect 0 < ttl <= min(configured, remaining - leeway), nothing may be answered without a remote call past its validity, TTL 0 must disable caching.",
+   "The real Redis client is represented by a reference cache; Date-derived response age and the undocumented 10 s margins are counted don't-cares; clock granularity 1 s.",
+   "DESIGN.md 4 C10"),
 }
 
 NOT_YET = {
